@@ -40,7 +40,23 @@ def noncopy_runs(obs):
 
 def one(ctx, data, meta=None):
     ctx.evaluations += 1; good = True
-    obs = {(h, d): (i, m) for h, d, i, m in observe(ctx, data, pk.OPTS, want=['pars', 'comments', 'images', 'core'])}
+    obs = {(h, d): (i, m) for h, d, i, m in observe(ctx, data, pk.OPTS, want=['pars', 'comments', 'images', 'core', 'skel'])}
+    # the implementation refines the structural machine `skeletonOf` (no text, no html parameter): the machine run on the tree merged
+    # under EITHER html setting gives the records (nesting, lineage, style, list position, source element, copy mark) of BOTH extractions
+    facts = lambda x: {k: x.get(k) for k in ('lin', 'style', 'lp', 'elem', 'copy')} if isinstance(x, dict) else x
+    for dup in (True, False):
+        for hm in (False, True):                      # html setting under which the model merged the tree
+            m = obs[(hm, dup)][1]
+            for hi in (False, True):                  # html setting of the implementation's extraction
+                i = obs[(hi, dup)][0]
+                for v in VIEWS[:5]:
+                    sk, pr = m.get(v + '_skel'), i.get(v + '_pars')
+                    if not sk or not pr or 'ok' not in pr: continue
+                    if 'ok' not in sk:
+                        ctx.diff(f'structural machine raises on {v}', case_payload(data, html=hi, dup=dup, merged_under_html=hm), 'returns', sk); good = False; continue
+                    d = first_diff(nest_map(pr['ok'], facts), nest_map(sk['ok'], facts))
+                    if d:
+                        ctx.diff(f'structure of {v}_pars vs the structural machine', case_payload(data, html=hi, dup=dup, merged_under_html=hm), d[1], d[2], path=d[0]); good = False
     parts = src.parts_of(data)
     has_merge = any(src.ptag(x) in ('w:gridSpan', 'w:vMerge') for root in parts.values() for x in root.iter())
     for who in (0, 1):          # 0 = implementation, 1 = model
